@@ -362,9 +362,7 @@ Record IxOk (E : env) (T : tree) (ix : index) : Prop := mk_ixok {
   ixo_pkgs : forall p, In p (ix_pkgs ix) <-> t_has T (package_path p) = true;
   ixo_pkeys : forall p, sm_has (ix_parents ix) p = true <->
                         exists s, In s (ix_schemas ix) /\ in_path E p s = true;
-  ixo_pvals : forall p l s, sm_get (ix_parents ix) p = Some l ->
-                            In s (ix_schemas ix) -> in_path E p s = true ->
-                            l = prefix_upto p (path_of_schema E s);
+  ixo_pvals : forall p l, sm_get (ix_parents ix) p = Some l -> l = path_of_schema E p;
   ixo_ckeys : forall p, sm_has (ix_children ix) p = true <-> sm_has (ix_parents ix) p = true;
   ixo_cvals : forall p c, In c (sm_val (ix_children ix) p) <->
                           In c (ix_schemas ix) /\ in_path E p c = true /\ c <> p;
@@ -378,7 +376,7 @@ Record ix_same (a b : index) : Prop := mk_ixsame {
   ixs_links : forall us, In us (ix_links a) <-> In us (ix_links b);
   ixs_schemas : set_eq (ix_schemas a) (ix_schemas b);
   ixs_pkgs : set_eq (ix_pkgs a) (ix_pkgs b);
-  ixs_pkeys : forall p, sm_has (ix_parents a) p = sm_has (ix_parents b) p;
+  ixs_pvals : forall p, sm_get (ix_parents a) p = sm_get (ix_parents b) p;
   ixs_ckeys : forall p, sm_has (ix_children a) p = sm_has (ix_children b) p;
   ixs_cvals : forall p, set_eq (sm_val (ix_children a) p) (sm_val (ix_children b) p);
   ixs_ukeys : forall p, sm_has (ix_used a) p = sm_has (ix_used b) p;
@@ -474,8 +472,8 @@ Definition export_fails (T : tree) (d : sdecl) : bool :=
 
 Definition s_attach (fixed : bool) (E : env) (st : sstate) (node schema v : string)
            (valid : bool) : sstate * res :=
-  if ro st then (st, RFail) else
   if guard node then (st, RGuard) else
+  if ro st then (st, RFail) else
   let n := resolve [] node in
   match t_get (raw (cs st)) n with
   | None => (st, RFail)
@@ -502,7 +500,7 @@ Definition s_step_gen (fixed : bool) (E : env) (st : sstate) (o : sop) : sstate 
   | SAttach node schema v valid => s_attach fixed E st node schema v valid
   | SOp (CAttach node schema _ v) => s_attach fixed E st node schema v true
   | SOp co =>
-      if ro st && mutating co then (st, RFail) else
+      if ro st && mutating co then (st, if op_reserved co then RGuard else RFail) else
       let '(c', r) := c_step (cs st) co in
       (mkss c' (track_gen fixed E (raw (cs st)) (raw c') (mem st)) (ro st), r)
   end.
@@ -565,9 +563,16 @@ Fixpoint lacks_char (c : ascii) (s : string) : bool :=
   | String a r => negb (Ascii.eqb a c) && lacks_char c r
   end.
 
+Fixpoint nodup_strs (l : list string) : bool :=
+  match l with
+  | [] => true
+  | x :: r => negb (mem_str x r) && nodup_strs r
+  end.
+
 Definition decl_ok (E : env) (d : sdecl) : bool :=
   lacks_char eq_char (d_ep d) &&
   Nat.leb 8 (String.length (d_ep d)) && negb (reserved_seg (d_ep d)) &&
+  nodup_strs (d_path d) &&
   String.eqb (last_seg (d_path d)) (d_ep d) &&
   forallb (fun p => match lookup_decl E p with
                     | Some dp => if list_eq_dec string_dec (d_path dp)
